@@ -266,11 +266,20 @@ fn search_body<const N: usize, const L: usize, const BUF: usize>(c05: bool, c06:
         assert!(matches!(list.earliest(), Some(d) if d.unix_time == first && first <= entry_instant(ei)));
         assert!(matches!(list.latest(), Some(d) if d.unix_time == last && last >= entry_instant(ei)));
     }
-    // no duplicates, strictly ascending order
+    // ascending order of instant; no valid instant duplicated (two transitions one count apart around an inserted leap
+    // second denote the same UTC instant, so a gap entry may share its instant with a neighbour: only `<=` is demanded there)
     let j: usize = kani::any();
     if j < k && i < j {
         match &data[j] {
-            Some(ej) => assert!(entry_instant(ei) < entry_instant(ej)),
+            Some(ej) => {
+                assert!(entry_instant(ei) <= entry_instant(ej));
+                if matches!(ei, FoundDateTimeKind::Normal(_)) && matches!(ej, FoundDateTimeKind::Normal(_)) {
+                    assert!(entry_instant(ei) < entry_instant(ej));
+                }
+                if L == 0 {
+                    assert!(entry_instant(ei) < entry_instant(ej));
+                }
+            }
             None => assert!(false),
         }
     }
